@@ -894,8 +894,10 @@ int cmd_determinism(const Options& o0, size_t n)
          pid_t pid = fork();
          if (pid == 0) {
             close(p[0]);
-            int nul = open("/dev/null", O_WRONLY);
-            if (nul >= 0) { dup2(nul, 2); close(nul); }
+            if (not std::getenv("VERIF_KEEP_STDERR")) {
+               int nul = open("/dev/null", O_WRONLY);
+               if (nul >= 0) { dup2(nul, 2); close(nul); }
+            }
             for (size_t i = size_t(w); i < total; i += size_t(wc)) {
                Plan plan = plan_for(sc, o, i, nprologue);
                RunResult r = run_here(sc, plan, false, o.tier);
